@@ -28,7 +28,7 @@ CHECK = {
     "C13": dict(
         bin="run_close", build="inpkg", pkg="contractcourt", level="fault_enumeration",
         run_args=["-test.run=^TestVerifRun$", "-test.timeout=0"],
-        quick=dict(runs=12000, wall=80), thorough=dict(runs=150000, wall=1500),
+        quick=dict(runs=9600, wall=85), thorough=dict(runs=150000, wall=1500),
         rule="one evaluation = one seeded close scenario (C12 model: 0-7 HTLCs on the local / remote / remote-pending commitments, anchors or legacy, broadcast deltas, heights; pre-close "
              "stimuli: blocks, ContractUpdates, preimage learned, user force close; close trigger local / remote / remote-pending / breach / coop) with a chain script drawn at the close "
              "(counterparty preimage claims and timeouts per HTLC output, confirmation delays per outpoint, preimages turning up, breach justice) run (1) uninterrupted to its terminal "
@@ -49,7 +49,7 @@ CHECK = {
         real_vs_stub=C13_STUB, assumptions=C13_ASSUME,
         simulated_time="block heights are simulator events; the synctest fake clock is never advanced by the engine (no lnd timer matters here)",
         determinism="actor engine in synctest bubbles (one bubble and one world per execution); one notification at a time to quiescence, parked stub calls released in key order; "
-                    "all draws happen in the reference execution and are replayed from the recording; self-test: quick 1500 runs (26906 crash executions) and thorough 120 runs (5231 crash executions), each in two processes with GOMAXPROCS 1 and 16: identical hashes and counters; 400 runs x 4 processes (GOMAXPROCS 1, 4, 16, 16) identical",
+                    "all draws happen in the reference execution and are replayed from the recording; self-test (with the real channel database): quick 500 runs (9041 crash executions) and thorough 60 runs (2704 crash executions), each in two processes with GOMAXPROCS 1 and 16: identical hashes and counters; 400 runs x 3 processes (GOMAXPROCS default, default, 4; with and without the database-snapshot shortcut) identical. Cost: 0.09 CPU-s per run in the quick tier (18 crash executions per run; 11 runs/s per worker, was 18 with the stub database - the difference is public-key parsing inside the real channeldb reads/writes); 9600 runs = 600 per worker = about 55 s on 16 idle cores",
     ),
 }
 
